@@ -246,4 +246,32 @@ theorem foldl_max_ge (pads : List Pad) : ∀ (init : Nat),
 theorem maxCtr_ge (pads : List Pad) (q : Pad) (hq : q ∈ pads) : q.ctr ≤ maxCtr pads :=
   (foldl_max_ge pads 0).2 q hq
 
+theorem foldl_max_attained (pads : List Pad) : ∀ (init : Nat),
+    pads.foldl (fun m p => Nat.max m p.ctr) init = init ∨
+    ∃ q ∈ pads, q.ctr = pads.foldl (fun m p => Nat.max m p.ctr) init := by
+  induction pads with
+  | nil => intro init; exact .inl rfl
+  | cons p rest ih =>
+    intro init
+    simp only [List.foldl_cons]
+    cases ih (Nat.max init p.ctr) with
+    | inl h =>
+      rw [h]
+      cases Nat.le_total init p.ctr with
+      | inl hle => exact .inr ⟨p, List.mem_cons_self, (Nat.max_eq_right hle).symm⟩
+      | inr hle => exact .inl (Nat.max_eq_left hle)
+    | inr h =>
+      obtain ⟨q, hq, hqc⟩ := h
+      exact .inr ⟨q, List.mem_cons_of_mem _ hq, hqc⟩
+
+/-- a non-empty list has a pad of the highest counter -/
+theorem maxCtr_attained (pads : List Pad) (p : Pad) (hp : p ∈ pads) : ∃ q ∈ pads, q.ctr = maxCtr pads := by
+  cases foldl_max_attained pads 0 with
+  | inr h => exact h
+  | inl h =>
+    refine ⟨p, hp, ?_⟩
+    have := maxCtr_ge pads p hp
+    unfold maxCtr at this ⊢
+    omega
+
 end SafeNet.Proofs.ClientRead
